@@ -43,6 +43,9 @@ class FixedEnergy(Calculator):
         self.results = {"energy": float(self.value), "forces": np.zeros((len(self.atoms), 3))}
 
 
+TMPL_MASS = {"Cu": 63.546, "CO": 12.011 + 15.999, "CO*": 24.0 + 32.0}
+
+
 def thermal_wavelength(mass_amu, T):
     """Angstrom; independent of quansino (scipy CODATA constants)"""
     from scipy import constants as C
@@ -88,8 +91,12 @@ class Rig:
             mc = Isotension(atoms(n), temperature=777.0, pressure=0.5, max_cycles=1, seed=3)
             mc.add_move(CellMove())
             self.sims[("isotension", n)] = mc
-        for tmpl in ("Cu", "CO"):
-            t = Atoms(tmpl, positions=[[0, 0, 0.6 * i] for i in range(len(tmpl) if tmpl != "Cu" else 1)])
+        for tmpl in ("Cu", "CO", "CO*"):
+            # "CO*": the same species with masses set by the user (here twice the natural ones): the thermal wavelength follows the masses the
+            # exchange species really carries
+            t = Atoms(tmpl.rstrip("*"), positions=[[0, 0, 0.6 * i] for i in range(len(tmpl.rstrip("*")) if tmpl != "Cu" else 1)])
+            if tmpl == "CO*":
+                t.set_masses([24.0, 32.0])
             mc = GrandCanonical(atoms(2), exchange_atoms=t, temperature=777.0, chemical_potential=9.9, number_of_exchange_particles=55, max_cycles=1, seed=3)
             mc.add_move(ExchangeMove([0, 1]))
             self.sims[("gc", tmpl)] = mc
@@ -194,8 +201,8 @@ def lattice_inputs(p, variant):
             kw["_strain"] = strain
             kw["_V0"] = V0
     if ens in ("insertion", "deletion"):
-        tmpl = "Cu" if variant % 2 == 0 else "CO"
-        mass = 63.546 if tmpl == "Cu" else 12.011 + 15.999
+        tmpl = ["Cu", "CO", "CO*"][(variant + p["j"]) % 3]
+        mass = TMPL_MASS[tmpl]
         lam3 = thermal_wavelength(mass, T) ** 3
         N = p["n"]
         kw.update(mu=p["mu"] * eps, N=N, tmpl=tmpl)
@@ -570,12 +577,12 @@ def run(tier: str) -> int:
         if ens == "hamiltonian":
             kw["dK"] = mk["dK"] = float(rs.normal() * kB * T * scale)
         if ens in ("insertion", "deletion"):
-            tmpl = ["Cu", "CO"][rs.randint(2)]
+            tmpl = ["Cu", "CO", "CO*"][rs.randint(3)]
             N = int(rs.randint(0, 50)) + (1 if ens == "deletion" else 0)
             V = float(10 ** rs.uniform(0, 5))
             mu = float(rs.normal() * 2)
             kw.update(mu=mu, N=N, V=V, tmpl=tmpl)
-            mk.update(mu=mu, N=N, V=V, mass=63.546 if tmpl == "Cu" else 12.011 + 15.999)
+            mk.update(mu=mu, N=N, V=V, mass=TMPL_MASS[tmpl])
         if ens == "isotension":
             n = int(rs.randint(0, 4))
             base = np.diag(rs.uniform(6, 12, 3)) + np.tril(rs.uniform(-2, 2, (3, 3)), -1)
@@ -614,7 +621,7 @@ def run(tier: str) -> int:
         S = rs.uniform(-0.05, 0.05, (3, 3))
         S = S + S.T
         n = int(rs.randint(0, 4))
-        tmpl = ["Cu", "CO"][rs.randint(2)]
+        tmpl = ["Cu", "CO", "CO*"][rs.randint(3)]
         N = int(rs.randint(1, 30))
         V = float(10 ** rs.uniform(1, 4))
         mu = float(rs.normal())
@@ -631,7 +638,7 @@ def run(tier: str) -> int:
                 mk.update(n=n, V0=abs(np.linalg.det(base)), V1=abs(np.linalg.det(new)), P=P)
             if ens in ("insertion", "deletion"):
                 kw.update(mu=mu, N=N, V=V, tmpl=tmpl)
-                mk.update(mu=mu, N=N, V=V, mass=63.546 if tmpl == "Cu" else 12.011 + 15.999)
+                mk.update(mu=mu, N=N, V=V, mass=TMPL_MASS[tmpl])
             try:
                 got, crit, _ = rig.evaluate(ens, **kw)
             except Exception as ex:  # noqa: BLE001
